@@ -6,6 +6,7 @@ From Coq Require Import ZArith List Bool Lia ZifyBool.
 From Segno Require Import Base.PyLite Base.PySem Ref.IsoData Model.Bits Model.Segment Model.Version Model.Stream.
 From Segno Require Tie.TieTables.
 From Segno Require Import Tie.TieBase.
+From Segno Require Tie.TieMat.
 From SegnoSrc Require SrcTables.
 From SegnoSrc Require Import SrcEcc.
 Import ListNotations.
@@ -186,8 +187,271 @@ Proof.
         unfold zrange. rewrite Z.sub_0_r. replace (Z.to_nat (lenZ gen)) with (length gen) by (unfold lenZ; lia).
         pose proof (xor_loop l (lenZ done) (done ++ [coef]) Hl0) as HX.
         specialize (HX ltac:(rewrite lenZ_app; reflexivity) gen [] [] rest eq_refl Hr Hgen).
-        cbn [app lenZ length] in HX. change (Z.of_nat 0) with 0 in HX.
+        cbn [app] in HX. change (lenZ (@nil Z)) with 0 in HX.
         replace (done ++ coef :: rest) with ((done ++ [coef]) ++ rest) by (now rewrite <- app_assoc).
         rewrite HX. destruct (xor_gen l gen rest) as [rest'|ex] eqn:Hxg; cbn [bind]; [|reflexivity].
         apply Hstep. eapply xor_gen_bytes; eauto.
 Qed.
+
+(* ------------------------------------------------------------------ one block, the blocks of one EC entry, all entries *)
+Definition blk_body (nd num_ec : Z) (gen : list Z) := fun (i : Z) (st' : list Z * list (list Z) * list (list Z)) =>
+  let '(codewords, data_blocks, error_blocks) := st' in
+  do (t'3, codewords0) <- py_islice codewords nd;
+  do t'4 <- py_bytearray t'3;
+  let block := t'4 in
+  let data_blocks0 := data_blocks ++ [block] in
+  let len_data := lenZ block in
+  do t'5 <- py_bytearray block;
+  let error_block := t'5 in
+  do error_block0 <- py_buf_extend error_block (py_repeat [0] num_ec);
+  match py_for (zrange 0 len_data) (div_body gen num_ec) error_block0 with
+  | Err e' => Err e'
+  | Ok (inl r') => match r' return _ with end
+  | Ok (inr st'0) =>
+      let error_block1 := st'0 in
+      let error_blocks0 := error_blocks ++ [py_slice_from error_block1 len_data] in
+      Ok (@CNext void _ (codewords0, data_blocks0, error_blocks0))
+  end.
+
+Lemma Forall_firstn {A} (P : A -> Prop) n : forall l, Forall P l -> Forall P (firstn n l).
+Proof. induction n as [|n IH]; intros [|x l] H; cbn; auto. inversion H; subst. constructor; auto. Qed.
+Lemma Forall_skipn {A} (P : A -> Prop) n : forall l, Forall P l -> Forall P (skipn n l).
+Proof. induction n as [|n IH]; intros [|x l] H; cbn; auto. inversion H; subst. auto. Qed.
+Lemma Forall_byte_zeros n : Forall byte (repeat 0 n).
+Proof. induction n; cbn; constructor; auto. unfold byte. lia. Qed.
+
+Lemma blk_loop nd num_ec gen : 0 <= nd -> lenZ gen = num_ec -> Forall (fun x => 0 <= x) gen ->
+  forall n a cw ds es, Forall byte cw ->
+  py_for (zrange_aux n a) (blk_body nd num_ec gen) (cw, ds, es)
+  = match blocks_of_info n nd num_ec gen cw with
+    | Ok (ds', es', cw') => Ok (inr (cw', ds ++ ds', es ++ es'))
+    | Err e => Err e
+    end.
+Proof.
+  intros Hnd Hlen Hgen. induction n as [|n IH]; intros a cw ds es Hcw; cbn [zrange_aux py_for blocks_of_info].
+  - now rewrite !app_nil_r.
+  - unfold blk_body at 1. unfold py_islice. destruct (nd <? 0) eqn:E; [lia|]. cbn [bind].
+    set (block := firstn (Z.to_nat nd) cw). set (cw' := skipn (Z.to_nat nd) cw).
+    assert (Hblock : Forall byte block) by (apply Forall_firstn; assumption).
+    assert (Hcw' : Forall byte cw') by (apply Forall_skipn; assumption).
+    unfold py_bytearray. rewrite forallb_is_byte by assumption. cbn [bind]. cbv zeta.
+    rewrite forallb_is_byte by assumption. cbn [bind].
+    unfold py_buf_extend. rewrite py_repeat_zeros, forallb_is_byte_repeat0. cbn [bind].
+    unfold error_words.
+    pose proof (div_loop gen Hgen (length block) [] (block ++ repeat 0 (Z.to_nat num_ec))) as HD.
+    specialize (HD ltac:(apply Forall_app; split; [assumption|apply Forall_byte_zeros])).
+    cbn [app] in HD. change (lenZ (@nil Z)) with 0 in HD. rewrite Hlen in HD.
+    unfold zrange. rewrite Z.sub_0_r. replace (Z.to_nat (lenZ block)) with (length block) by (unfold lenZ; lia).
+    destruct (division (length block) gen (block ++ repeat 0 (Z.to_nat num_ec))) as [r|e].
+    + destruct HD as [pre' [Hpre HD]]. rewrite HD. cbn [bind]. cbv zeta.
+      replace (lenZ block) with (lenZ pre') by (unfold lenZ in *; lia). rewrite py_slice_from_app.
+      rewrite IH by assumption. fold cw'.
+      destruct (blocks_of_info n nd num_ec gen cw') as [[[ds' es'] cw'']|e]; cbn [bind]; [|reflexivity].
+      now rewrite <- !app_assoc.
+    + rewrite HD. reflexivity.
+Qed.
+
+Definition info_body := fun (ec_info : Z * Z * Z) (st' : list Z * list (list Z) * list (list Z)) =>
+  let '(codewords, data_blocks, error_blocks) := st' in
+  let num_error_words := ec_num_total ec_info - ec_num_data ec_info in
+  do t'2 <- getZ num_error_words GEN_POLY;
+  let gen := t'2 in
+  match py_for (zrange 0 (ec_num_blocks ec_info)) (blk_body (ec_num_data ec_info) num_error_words gen)
+               (codewords, data_blocks, error_blocks) with
+  | Err e' => Err e'
+  | Ok (inl r') => match r' return _ with end
+  | Ok (inr st'0) => let '(codewords0, data_blocks0, error_blocks0) := st'0 in
+                     Ok (@CNext void _ (codewords0, data_blocks0, error_blocks0))
+  end.
+
+Lemma infos_loop : forall infos cw ds es, Forall (fun e => 0 <= ec_num_data e) infos -> Forall byte cw ->
+  match make_blocks_aux infos cw with
+  | Ok (ds', es') => exists cw', py_for infos info_body (cw, ds, es) = Ok (inr (cw', ds ++ ds', es ++ es'))
+  | Err e => py_for infos info_body (cw, ds, es) = Err e
+  end.
+Proof.
+  induction infos as [|[[nb nt] nd] r IH]; intros cw ds es Hwf Hcw; cbn [make_blocks_aux py_for].
+  - exists cw. now rewrite !app_nil_r.
+  - inversion Hwf as [|? ? Hnd Hr]; subst. unfold ec_num_data in Hnd. cbn [fst snd] in Hnd.
+    unfold info_body at 1 3. unfold ec_num_total, ec_num_data, ec_num_blocks. cbn [fst snd]. cbv zeta.
+    destruct (getZ (nt - nd) GEN_POLY) as [gen|e] eqn:Hgen; cbn [bind]; [|reflexivity].
+    destruct (gen_poly_facts _ _ Hgen) as [Hlen Hnn].
+    unfold zrange. rewrite Z.sub_0_r. rewrite (blk_loop nd (nt - nd) gen Hnd Hlen Hnn) by assumption.
+    destruct (blocks_of_info (Z.to_nat nb) nd (nt - nd) gen cw) as [[[ds1 es1] cw1]|e] eqn:Hb; cbn [bind]; [|reflexivity].
+    assert (Hcw1 : Forall byte cw1).
+    { clear - Hb Hcw. revert cw ds1 es1 cw1 Hb Hcw. induction (Z.to_nat nb) as [|n IHn]; intros cw ds1 es1 cw1 Hb Hcw;
+        cbn [blocks_of_info] in Hb.
+      - now injection Hb as <- <- <-.
+      - destruct (error_words gen (firstn (Z.to_nat nd) cw) (nt - nd)); cbn [bind] in Hb; [|discriminate].
+        destruct (blocks_of_info n nd (nt - nd) gen (skipn (Z.to_nat nd) cw)) as [[[d e0] c]|] eqn:Hb2; cbn [bind] in Hb; [|discriminate].
+        injection Hb as <- <- <-. eapply IHn; [exact Hb2|]. now apply Forall_skipn. }
+    specialize (IH cw1 (ds ++ ds1) (es ++ es1) Hr Hcw1).
+    destruct (make_blocks_aux r cw1) as [[ds2 es2]|e]; cbn [bind].
+    + destruct IH as [cw' IH]. exists cw'. rewrite IH. now rewrite <- !app_assoc.
+    + exact IH.
+Qed.
+
+(* ------------------------------------------------------------------ Buffer.toints *)
+Lemma take_fill_bits n : forall l, py_take_fill n (bitsZ l) = bitsZ (take_pad n l).
+Proof. induction n as [|n IH]; intros [|b r]; cbn [py_take_fill take_pad bitsZ map]; try reflexivity; f_equal; apply (IH []) || apply IH. Qed.
+Lemma fold_bits l : forall acc, fold_left (fun a b => 2 * a + b) (bitsZ l) acc = fold_left (fun a b => 2 * a + bit_z b) l acc.
+Proof. induction l as [|b r IH]; intros acc; cbn; [reflexivity|apply IH]. Qed.
+Lemma toints_fuel_src : forall f l, py_toints_fuel f (bitsZ l) = toints_fuel f l.
+Proof.
+  induction f as [|f IH]; intros l; [reflexivity|]. cbn [py_toints_fuel toints_fuel].
+  destruct l as [|b r]; [reflexivity|]. cbn [bitsZ map]. change (bit_z b :: map bit_z r) with (bitsZ (b :: r)).
+  rewrite take_fill_bits. unfold int_of_bits. rewrite fold_bits. f_equal.
+  unfold bitsZ. rewrite skipn_map. apply IH.
+Qed.
+Lemma bits_are_bits l : forallb is_bit (bitsZ l) = true.
+Proof. induction l as [|[|] r IH]; cbn; auto. Qed.
+Lemma src_toints_is_model buff : py_buffer_toints (bitsZ buff) = Ok (toints buff).
+Proof.
+  unfold py_buffer_toints, toints. rewrite bits_are_bits. f_equal.
+  unfold bitsZ at 1. rewrite map_length. apply toints_fuel_src.
+Qed.
+
+Lemma int_of_bits_8_byte l : length l = 8%nat -> byte (int_of_bits l).
+Proof.
+  intros H. do 8 (destruct l as [|? l]; [discriminate H|]). destruct l; [|discriminate H].
+  unfold byte. destruct b, b0, b1, b2, b3, b4, b5, b6; vm_compute; split; congruence.
+Qed.
+Lemma take_pad_length n : forall bs, length (take_pad n bs) = n.
+Proof. induction n as [|n IH]; intros [|b r]; cbn [take_pad length]; auto. Qed.
+Lemma toints_bytes buff : Forall byte (toints buff).
+Proof.
+  unfold toints. generalize (S (length buff)) as f. intros f. revert buff.
+  induction f as [|f IH]; intros bs; cbn [toints_fuel]; [constructor|].
+  destruct bs as [|b r]; [constructor|]. constructor; [|apply IH].
+  apply int_of_bits_8_byte, take_pad_length.
+Qed.
+
+(* ------------------------------------------------------------------ make_blocks *)
+(* guard: the number of data codewords of every EC entry is not negative (islice raises ValueError otherwise, the model
+   takes nothing); true for every entry of consts.ECC, see [ecc_table_wf] *)
+Theorem src_make_blocks_is_model : forall (ec_infos : list (Z * Z * Z)) (buff : bits),
+  Forall (fun e => 0 <= ec_num_data e) ec_infos ->
+  src_make_blocks ec_infos (bitsZ buff)
+  = do p <- Stream.make_blocks ec_infos buff; Ok [fst p; snd p].
+Proof.
+  intros infos buff Hwf. unfold src_make_blocks, Stream.make_blocks.
+  rewrite ?TieTables.tie_GALIOS_LOG, ?TieTables.tie_GALIOS_EXP, ?TieTables.tie_GEN_POLY.
+  rewrite src_toints_is_model. cbn [bind]. cbv zeta.
+  rewrite (py_for_ext infos _ info_body) by (intros x [[c d] e] _; reflexivity).
+  pose proof (infos_loop infos (toints buff) [] [] Hwf (toints_bytes buff)) as HL.
+  destruct (make_blocks_aux infos (toints buff)) as [[ds es]|e]; cbn [bind fst snd].
+  - destruct HL as [cw' HL]. rewrite HL. reflexivity.
+  - rewrite HL. reflexivity.
+Qed.
+
+Lemma ecc_table_wf_all :
+  forallb (fun vr => forallb (fun kr => forallb (fun e => 0 <=? ec_num_data e) (snd kr)) (snd vr)) ECC = true.
+Proof. vm_compute. reflexivity. Qed.
+Theorem ecc_table_wf version error infos : ec_infos version error = Ok infos -> Forall (fun e => 0 <= ec_num_data e) infos.
+Proof.
+  unfold ec_infos, getZ, getOZ. destruct (assocZ version ECC) as [row|] eqn:Hr; cbn [bind]; [|discriminate].
+  destruct (assocOZ error row) as [i|] eqn:Hi; [|discriminate]. intros [= <-].
+  apply assocZ_In' in Hr. apply assocOZ_In' in Hi. destruct Hi as [k Hk].
+  pose proof ecc_table_wf_all as T. rewrite forallb_forall in T. specialize (T _ Hr). cbn [snd] in T.
+  rewrite forallb_forall in T. specialize (T _ Hk). cbn [snd] in T.
+  apply Forall_forall. intros e He. rewrite forallb_forall in T. specialize (T _ He). lia.
+Qed.
+
+(* ------------------------------------------------------------------ make_final_message *)
+Lemma land1_testbit x n : 0 <= n -> Z.land (Z.shiftr x n) 1 = bit_z (Z.testbit x n).
+Proof.
+  intros Hn. change 1 with (Z.ones 1). rewrite Z.land_ones by lia. change (2 ^ 1) with 2.
+  rewrite <- Z.bit0_mod, Z.shiftr_spec by lia. cbn [Z.add]. now destruct (Z.testbit x n).
+Qed.
+
+Lemma rev_zrange_aux_S n : rev (zrange_aux (S n) 0) = Z.of_nat n :: rev (zrange_aux n 0).
+Proof.
+  replace (S n) with (n + 1)%nat by lia. rewrite TieMat.zrange_aux_app. cbn [zrange_aux]. rewrite rev_app_distr. reflexivity.
+Qed.
+
+Lemma to_binary_bits val len :
+  map (fun i => Z.land (Z.shiftr val i) 1) (rev (zrange 0 len)) = bitsZ (bits_of val len).
+Proof.
+  unfold zrange, bits_of. rewrite Z.sub_0_r. induction (Z.to_nat len) as [|n IH]; [reflexivity|].
+  rewrite rev_zrange_aux_S. cbn [map bits_of_aux bitsZ]. rewrite land1_testbit by lia. f_equal. exact IH.
+Qed.
+
+Lemma py_somes_app {A} (a b : list (option A)) : py_somes (a ++ b) = py_somes a ++ py_somes b.
+Proof. induction a as [|[x|] a IH]; cbn; [reflexivity| |]; now rewrite IH. Qed.
+
+Lemma somes_heads (blocks : list (list Z)) :
+  py_somes (map (fun l => match l with [] => None | x :: _ => Some x end) blocks)
+  = flat_map (fun b => match b with [] => [] | x :: _ => [x] end) blocks.
+Proof. induction blocks as [|[|x b] r IH]; cbn; [reflexivity|exact IH|now rewrite IH]. Qed.
+
+Lemma zip_longest_interleave : forall f (blocks : list (list Z)),
+  py_somes (concat (py_zip_longest_fuel f blocks)) = interleave_fuel f blocks.
+Proof.
+  induction f as [|f IH]; intros blocks; [reflexivity|]. cbn [py_zip_longest_fuel interleave_fuel].
+  unfold py_all_nil. destruct (forallb _ blocks); [reflexivity|].
+  cbn [concat]. rewrite py_somes_app, somes_heads, IH. reflexivity.
+Qed.
+
+Lemma src_interleave (blocks : list (list Z)) : py_somes (concat (py_zip_longest blocks)) = interleave blocks.
+Proof. apply zip_longest_interleave. Qed.
+
+Lemma bits8_src (l : list Z) :
+  concat (map (fun map_x => map (fun i => Z.land (Z.shiftr map_x i) 1) (rev (zrange 0 8))) (map (fun x => x) l))
+  = bitsZ (flat_map (fun x => bits_of x 8) l).
+Proof.
+  rewrite map_id. induction l as [|x r IH]; [reflexivity|]. cbn [map concat flat_map].
+  rewrite bitsZ_app, to_binary_bits, IH. reflexivity.
+Qed.
+
+Lemma bits_are_bytes l : forallb is_byte (bitsZ l) = true.
+Proof. induction l as [|[|] r IH]; cbn; auto. Qed.
+Lemma extend_bits a b : py_buf_extend (bitsZ a) (bitsZ b) = Ok (bitsZ (a ++ b)).
+Proof. unfold py_buf_extend. now rewrite bits_are_bytes, bitsZ_app. Qed.
+
+Lemma extend_bits_nil b : py_buf_extend [] (bitsZ b) = Ok (bitsZ b).
+Proof. apply (extend_bits [] b). Qed.
+
+Lemma removelast_rev {A} (l : list A) x fr : rev l = x :: fr -> removelast l = rev fr.
+Proof.
+  intros H. assert (Hl : l = rev fr ++ [x]) by (rewrite <- (rev_involutive l), H; reflexivity).
+  rewrite Hl. apply removelast_last.
+Qed.
+
+Lemma is_m1_m3_src version :
+  (version =? -3) || ((version =? -1) || false) = is_m1_m3 version.
+Proof. unfold is_m1_m3, VERSION_M1, VERSION_M3. now rewrite orb_false_r. Qed.
+
+Theorem src_make_final_message_is_model : forall (version : Z) (error : option Z) (buff : bits),
+  src_make_final_message version error (bitsZ buff)
+  = do r <- Stream.make_final_message version error buff; Ok (bitsZ r).
+Proof.
+  intros version error buff. unfold src_make_final_message, Stream.make_final_message. cbv zeta.
+  rewrite TieTables.tie_ECC. unfold ec_infos at 1.
+  destruct (getZ version ECC) as [row|e] eqn:Hrow; cbn [bind]; [|reflexivity].
+  destruct (getOZ error row) as [infos|e] eqn:Hinfos; cbn [bind]; [|reflexivity].
+  assert (Hwf : Forall (fun e => 0 <= ec_num_data e) infos).
+  { apply (ecc_table_wf version error). unfold ec_infos. rewrite Hrow. cbn [bind]. exact Hinfos. }
+  rewrite src_make_blocks_is_model by assumption.
+  destruct (Stream.make_blocks infos buff) as [[ds es]|e]; cbn [bind fst snd py_unpack2]; [|reflexivity].
+  rewrite is_m1_m3_src.
+  destruct (is_m1_m3 version).
+  - destruct ds as [|b0 rest]; [reflexivity|]. cbn [py_index]. unfold py_index, nthZ. cbn [Z.ltb Z.compare Z.to_nat nth_error bind].
+    unfold py_pop_last. destruct (rev b0) as [|last front] eqn:Hrev; [reflexivity|]. cbn [bind].
+    unfold py_list_set_item, py_norm_index. cbn [Z.ltb Z.compare].
+    replace ((0 <=? 0) && (0 <? lenZ (b0 :: rest))) with true by (unfold lenZ; cbn [length]; lia).
+    cbn [bind Z.to_nat upd_nat]. cbn [negb].
+    rewrite (removelast_rev _ _ _ Hrev).
+    rewrite (bits8_src (py_somes (concat (py_zip_longest (rev front :: rest))))) || idtac.
+    rewrite !src_interleave. rewrite !bits8_src. rewrite extend_bits_nil. cbn [bind].
+    rewrite to_binary_bits. rewrite extend_bits. cbn [bind]. rewrite extend_bits. cbn [bind].
+    unfold remainder_bits, memZ. cbn [existsb].
+    match goal with |- context [py_repeat [0] ?r] => rewrite (py_repeat_zeros r), <- (bitsZ_zeros r) end.
+    rewrite extend_bits. cbn [bind app]. rewrite <- !app_assoc. reflexivity.
+  - cbn [bind negb]. rewrite !src_interleave, !bits8_src. rewrite extend_bits_nil. cbn [bind]. rewrite extend_bits. cbn [bind].
+    unfold remainder_bits, memZ. cbn [existsb].
+    match goal with |- context [py_repeat [0] ?r] => rewrite (py_repeat_zeros r), <- (bitsZ_zeros r) end.
+    rewrite extend_bits. cbn [bind app]. rewrite <- !app_assoc. reflexivity.
+Qed.
+
+Print Assumptions src_make_blocks_is_model.
+Print Assumptions src_make_final_message_is_model.
